@@ -11,6 +11,7 @@ import (
 	"verifharness/hx"
 
 	"github.com/iotaledger/hive.go/ds"
+	"github.com/iotaledger/hive.go/ds/orderedmap"
 	"github.com/iotaledger/hive.go/serializer/v2/serix"
 )
 
@@ -377,6 +378,134 @@ func (w *world) stress(kind string, threads, n int, seed uint64) string {
 	return "done"
 }
 
+// omWriterPending: some goroutine is blocked in sync.(*RWMutex).Lock called from an OrderedMap method.
+func omWriterPending() bool {
+	buf := make([]byte, 1<<18)
+	n := runtime.Stack(buf, true)
+	for _, g := range strings.Split(string(buf[:n]), "\n\n") {
+		if strings.Contains(g, "sync.(*RWMutex).Lock(") && strings.Contains(g, "orderedmap.(*OrderedMap[") {
+			return true
+		}
+	}
+
+	return false
+}
+
+// mforced runs Clone / ForEach / ForEachReverse on an n-entry ordered map while another goroutine writes.
+// clone: writers hammer the map while it is cloned repeatedly (a Clone of 1000+ entries takes long enough for a
+// writer to queue behind its read lock); foreach: the consumer itself starts a writer in the middle of the iteration
+// and waits until that writer has finished or is seen blocked in mutex.Lock.
+func (w *world) mforced(kind string, n int) string {
+	if n < 10 || n > 100000 {
+		return "bad-op"
+	}
+	om := orderedmap.New[int, int]()
+	for i := 0; i < n; i++ {
+		om.Set(i, i)
+	}
+	done := make(chan string, 4)
+	var stop, observed atomic.Bool
+	guard := func(name string, f func()) {
+		go func() {
+			defer func() {
+				if e := recover(); e != nil {
+					w.r.Fail("panic", fmt.Sprintf("mforced %s: %v", kind, e), map[string]string{"api": "OrderedMap", "oracle": "panic"})
+				}
+				done <- name
+			}()
+			f()
+		}()
+	}
+	parties := 0
+	switch kind {
+	case "clone":
+		parties = 2
+		guard("writer", func() {
+			for j := 0; !stop.Load(); j++ {
+				om.Set(j%n, j)
+				om.Delete(n + j%7)
+				om.Set(n+j%7, 1)
+			}
+		})
+		guard("clone", func() {
+			defer stop.Store(true)
+			for i := 0; i < 40; i++ {
+				c := om.Clone()
+				if c.Size() < n {
+					w.r.Fail("algebra", fmt.Sprintf("Clone of a map with >= %d entries has %d", n, c.Size()), map[string]string{"api": "OrderedMap.Clone", "oracle": "algebra"})
+				}
+				if i%8 == 0 && omWriterPending() {
+					observed.Store(true)
+				}
+			}
+		})
+	case "foreach", "foreachrev":
+		parties = 1
+		guard("foreach", func() {
+			visits := 0
+			consumer := func(k, v int) bool {
+				visits++
+				if visits == 3 || visits == n/2 {
+					wdone := make(chan struct{})
+					go func() {
+						defer close(wdone)
+						om.Set(n+visits, 1)
+						om.Delete(k)
+					}()
+					deadline := time.Now().Add(2 * time.Second)
+					for time.Now().Before(deadline) {
+						select {
+						case <-wdone:
+							return true
+						default:
+						}
+						if omWriterPending() {
+							observed.Store(true)
+
+							return true
+						}
+						time.Sleep(100 * time.Microsecond)
+					}
+				}
+
+				return true
+			}
+			if kind == "foreach" {
+				om.ForEach(consumer)
+			} else {
+				om.ForEachReverse(consumer)
+			}
+			if visits < n-2 {
+				w.r.Fail("weak-iteration", fmt.Sprintf("%s visited %d of %d entries", kind, visits, n), map[string]string{"api": "OrderedMap.ForEach", "oracle": "weak-iteration"})
+			}
+		})
+	default:
+		return "bad-op"
+	}
+	timeout := time.After(watchdog)
+	for i := 0; i < parties; i++ {
+		select {
+		case <-done:
+		case <-timeout:
+			stop.Store(true)
+			api := map[string]string{"clone": "OrderedMap.Clone", "foreach": "OrderedMap.ForEach", "foreachrev": "OrderedMap.ForEachReverse"}[kind]
+			w.r.Fail("deadlock", fmt.Sprintf("%s on a %d-entry map with a concurrent writer: %d of %d goroutines returned within %v (writer observed pending: %v)",
+				api, n, i, parties, watchdog, observed.Load() || omWriterPending()),
+				map[string]string{"api": api, "oracle": "deadlock", "schedule": "reader-in-progress;writer-pending"})
+			hangs++
+
+			return "hung"
+		}
+	}
+	if observed.Load() {
+		w.r.Count("mforced:" + kind + ":writer-pending-observed")
+	} else {
+		w.r.Count("mforced:" + kind + ":writer-pending-not-observed")
+	}
+
+	return "done"
+}
+
 // runConcurrent is the generated concurrent part of a run.
 func runConcurrent(r *hx.Run) {
 	forcedN, stressN := 5, 1500
@@ -390,6 +519,9 @@ func runConcurrent(r *hx.Run) {
 				ops = append(ops, fmt.Sprintf("forced %s %s", b, wr))
 			}
 		}
+	}
+	for i := 0; i < forcedN; i++ {
+		ops = append(ops, fmt.Sprintf("mforced clone %d", 1000+200*i), fmt.Sprintf("mforced foreach %d", 1000+200*i), fmt.Sprintf("mforced foreachrev %d", 1000+200*i))
 	}
 	runCase(r, 0, ops)
 	for i := 0; i < stressN && hangs < 4; i++ {
